@@ -345,7 +345,8 @@ fn gen_fold_rule(rng: &mut Rng, id: &str) -> Value {
         0..=3 => Value::Null,
         4 => json!([]),
         5 => json!([404]),
-        6 => json!([200, 404]),
+        // lists are written in any order, and a code may be listed twice
+        6 => rng.pick(&[json!([200, 404]), json!([404, 200]), json!([404, 410, 200]), json!([500, 404, 404, 301])]).clone(),
         _ => json!([*rng.pick(&[301u16, 500, 200])]),
     };
     let excl: Value = if !codes.is_null() && rng.chance(1, 3) { json!(true) } else { Value::Null };
